@@ -535,6 +535,9 @@ func runC04(r *an.Run) {
 		})
 
 	justiceLockTime(r)
+
+	scriptPathPairs(r, "C04", 4)
+	secondLevelConversion(r)
 }
 
 // transferPairs extracts, per case clause of the first tag switch of f, the
